@@ -37,7 +37,7 @@ META = {
 
 THEOREMS = [
     "rect_all_histories", "row_aligned", "collections_in_histories", "empty_collection_leaves_table", "del_keeps_collections",
-    "built_datasets_are_good", "subset_spec", "subset_mask_keeps_order",
+    "filter_idx_spec", "built_datasets_are_good", "subset_spec", "subset_mask_keeps_order",
     "extend_spec", "merge_sort_spec", "merge_sort_unique", "difference_spec", "difference_rows_paired", "key_cells_leibniz",
     "difference_rect", "shared_reference_once", "walk_terminates_on_reachable", "reachable_stores_are_acyclic",
     "shared_reference_once_extend", "extend_walk_fill", "shared_reference_store_level", "c09_sharing_lost_refuted",
@@ -68,6 +68,9 @@ FINDINGS = {
         "Collection.__len__ is the length of the collection's first field: a nested collection that is empty, or whose first field is "
         "an empty collection, reports 0 rows and _extend takes the other dataset's nested fields over without padding (field shorter "
         "than num_obs)"),
+    10: ("c09_time_fill_not_utc",
+         "extend pads a time / time_delta field that is missing on one side with an empty value built in utc and converted to the "
+         "field's scale: for tai/tt/gps the conversion of datetime.min raises OverflowError (time_delta: UnknownConversionError)"),
     7: ("c09_empty_self_drops_nested_fields",
         "extend onto a zero-row dataset replaces whole collections by the other dataset's: nested fields that only self has vanish "
         "(top-level fields that only self has are kept and padded)"),
@@ -177,8 +180,12 @@ def model_rows(kind, rows):
 
 # ----------------------------------------------------------------------------- schemas
 # field descriptor: dict(path, kind, two, w, unit, refs={attr: ("field", path) | ("anon", id, kind)}, keymod)
-def fd(path, kind, two=False, w=1, unit=None, refs=None, keymod=None):
-    return dict(path=path, kind=kind, two=two, w=w, unit=unit, refs=dict(refs or {}), keymod=keymod)
+def fd(path, kind, two=False, w=1, unit=None, refs=None, keymod=None, vname=None):
+    """unit of a time / time_delta field = its time scale (carried as the unit tag of the model object);
+    vname: the name the cell values are derived from (two fields with one vname hold equal values)"""
+    if kind in ("time", "time_delta") and unit is None:
+        unit = ("utc",)
+    return dict(path=path, kind=kind, two=two, w=w, unit=unit, refs=dict(refs or {}), keymod=keymod, vname=vname)
 
 
 def base_schema_small():
@@ -212,6 +219,11 @@ def random_schema(rng):
     opt.append(fd("grp.gt", "text"))
     opt.append(fd("grp.sub.h", "float"))
     chosen = [f for f in opt if rng.random() < 0.6]
+    if rng.random() < 0.35:
+        # time fields in other scales than utc (never referenced by positions), two of them for equal-epoch cases
+        sc = rng.choice(["gps", "tai", "tt", "utc"])
+        chosen.append(fd("t_g", "time", unit=(sc,), vname="tg"))
+        chosen.append(fd("grp.t_h", "time", unit=(rng.choice([sc, "utc", "gps"]),), vname="th"))
     names = {f["path"] for f in chosen}
     anon_p = 0.12
     if rng.random() < 0.8:
@@ -294,7 +306,7 @@ class Real:
         gids = self.gids if gids is None else gids
         n = len(gids)
         kind, two, w, path = f["kind"], f["two"], f["w"], f["path"]
-        rows = [row_value(kind, two, w, path, g, f.get("keymod"), self.wprof) for g in gids]
+        rows = [row_value(kind, two, w, f.get("vname") or path, g, f.get("keymod"), self.wprof) for g in gids]
         kw = {}
         ref_terms = []
         for attr, tgt in f["refs"].items():
@@ -322,17 +334,20 @@ class Real:
         elif kind == "bool":
             add(path, val=val)
         elif kind == "time":
-            add(path, val=val, scale="utc", fmt="mjd")
+            add(path, val=val, scale=f["unit"][0], fmt="mjd")
         elif kind == "time_delta":
-            add(path, val=val, scale="utc", fmt="days")
+            add(path, val=val, scale=f["unit"][0], fmt="days")
         elif kind == "sigma":
             add(path, val=val[0], sigma=val[1], unit=f["unit"])
         else:
             add(path, val=val, system="trs", **kw)
         unit = "None" if f["unit"] is None else "(Some " + emit.lst(emit.s(u) for u in f["unit"]) + ")"
-        self.terms.append(
-            f"Add {emit.s(path)} {KCOQ[kind]} {emit.b(two)} {emit.nat(w)} {unit} "
-            + emit.lst(payload_term(kind, r) for r in model_rows(kind, rows)) + " " + emit.lst(ref_terms))
+        head = f"Add {emit.s(path)} {KCOQ[kind]} {emit.b(two)} {emit.nat(w)} {unit} "
+        tail = " " + emit.lst(ref_terms)
+        if not hasattr(self, "parts"):
+            self.parts = {}
+        self.parts[path] = (len(self.terms), head, tail)
+        self.terms.append(head + emit.lst(payload_term(kind, r) for r in model_rows(kind, rows)) + tail)
         self.pylog.append(f"ds.add_{kind}({path!r}, rows for observations {gids[:3]}{'...' if n > 3 else ''}, unit={f['unit']}, refs={f['refs']})")
         self.schema[path] = f
 
@@ -344,8 +359,19 @@ def build_real(schema, n, base, wprof="narrow", first_collection=None):
     return r
 
 
-def build_term(real):
-    return "(build " + emit.lst(real.terms) + ")"
+def build_term(real, self_schema=None, n1=0):
+    """The other dataset as the model sees it.  A time field whose scale differs from the scale of the same field of
+    self (which has rows) is appended in self's scale: the rows are given as converted by the implementation's public
+    conversion `other.<field>.<scale>` - whether scale conversions are right is not C09's business (C01), where the
+    converted rows end up is."""
+    terms = list(real.terms)
+    for p, f in real.schema.items():
+        g = (self_schema or {}).get(p)
+        if f["kind"] == "time" and g and g["kind"] == "time" and n1 > 0 and g["unit"] != f["unit"] and p in getattr(real, "parts", {}):
+            i, head, tail = real.parts[p]
+            conv = getattr(real.ds[p], g["unit"][0])
+            terms[i] = head + emit.lst(payload_term("time", r) for r in obj_rows("time", conv)) + tail
+    return "(build " + emit.lst(terms) + ")"
 
 
 # ----------------------------------------------------------------------------- observation
@@ -437,6 +463,8 @@ def snapshot(ds):
         ids[id(o)] = num
         keep.append(o)
         kind = obj_kind(o)
+        if kind in ("time", "time_delta"):
+            unit = (str(o.scale),)           # the time scale is the unit tag of a time object
         a = np.asarray(o)
         two = kind in ("float", "text", "bool") and a.ndim == 2
         w = a.shape[1] if two else 1
@@ -606,7 +634,7 @@ class History:
     def extend(self, other):
         self.flags[len(self.steps)] = self.collections_with_wrong_len()
         was_empty = self.rows() == 0
-        self.do("Extend " + build_term(other), "ds.extend(other)   # other:\n      " + "\n      ".join(other.pylog),
+        self.do("Extend " + build_term(other, self.real.schema, self.rows()), "ds.extend(other)   # other:\n      " + "\n      ".join(other.pylog),
                 lambda: self.real.ds.extend(other.ds))
         self.absorb(other, was_empty)
 
@@ -614,7 +642,14 @@ class History:
         self.flags[len(self.steps)] = self.collections_with_wrong_len()
         was_empty = self.rows() == 0
         s = "None" if sort_by is None else f"(Some {emit.s(sort_by)})"
-        self.do("Merge " + emit.lst(build_term(o) for o in others) + " " + s,
+        cur, n_cur, oterms = {p: dict(f) for p, f in self.real.schema.items()}, self.rows(), []
+        for o in others:
+            oterms.append(build_term(o, cur, n_cur))
+            for p, f in o.schema.items():
+                if p not in cur or n_cur == 0:
+                    cur[p] = dict(f)
+            n_cur += len(o.gids)
+        self.do("Merge " + emit.lst(oterms) + " " + s,
                 f"ds.merge_with(*others, sort_by={sort_by!r})   # others:\n      "
                 + "\n      ".join(l for o in others for l in o.pylog),
                 lambda: self.real.ds.merge_with(*[o.ds for o in others], sort_by=sort_by))
@@ -669,6 +704,33 @@ class History:
                 f"ds.filter(**{ {p: v for p, k, v in conds} })",
                 lambda: self.real.ds.filter(**{p: v for p, k, v in conds}), result="mask")
 
+    def filter_idx(self, keep, conds):
+        """ds.filter(idx=keep, ...) with a boolean ndarray the caller goes on using: observe the answer AND the
+        caller's array after the call"""
+        before = [bool(x) for x in keep]
+        if self.dead:
+            return
+        term = ("FilterIdx " + emit.lst(emit.b(x) for x in before) + " "
+                + emit.lst(emit.pair(emit.s(p), payload_term(k, [v])) for p, k, v in conds))
+        self.log.append(f"keep = np.array({before}); ds.filter(idx=keep, **{ {p: v for p, k, v in conds} })")
+        try:
+            out = self.real.ds.filter(idx=keep, **{p: v for p, k, v in conds})
+        except Exception as e:
+            self.steps.append((term, "ORaise"))
+            self.log.append(f"   -> raised {type(e).__name__}: {str(e)[:150]}")
+            self.summaries.append({"raised": f"{type(e).__name__}: {str(e)[:150]}", "step": len(self.steps) - 1})
+            self.dead = True
+            return
+        after = [bool(x) for x in keep]
+        self.steps.append((term, "(OMask2 " + emit.lst(emit.b(bool(x)) for x in out) + " " + emit.lst(emit.b(x) for x in after) + ")"))
+        self.summaries.append({"mask": [bool(x) for x in out], "caller_mask_before": before, "caller_mask_after": after,
+                               "step": len(self.steps) - 1})
+
+    def subset_mask_array(self, keep, intended):
+        """ds.subset(keep) with the caller's own array object; the model subsets with the values the caller put in"""
+        self.do("SubsetMask " + emit.lst(emit.b(x) for x in intended),
+                f"ds.subset(keep)   # keep was set to {[bool(x) for x in intended]}", lambda: self.real.ds.subset(keep))
+
     def unique(self, path, kind):
         self.do("Unique " + emit.s(path), f"ds.unique({path!r})", lambda: self.real.ds.unique(path), result=("vals", kind))
 
@@ -698,6 +760,12 @@ class History:
             f["refs"] = refs
             if f["unit"] is not None and rng.random() < unit_flip:
                 f["unit"] = tuple({"meter": "kilometer", "second": "minute"}.get(u, u) for u in f["unit"])
+            if p in ("t_g", "grp.t_h"):
+                # the other side may keep these epochs in another scale, and may hold the same epochs in both fields
+                if n and self.nderived % 3 != 2:
+                    f["unit"] = ({"gps": "utc", "utc": "tai", "tai": "tt", "tt": "gps"}[f["unit"][0]],)
+                if self.nderived % 2 == 0:
+                    f["vname"] = "same"
             sch.append(f)
         # referenced fields must be added before the fields that refer to them
         order = []
@@ -722,7 +790,7 @@ class History:
 
 def term_of_add(f, gids, anon, wprof="narrow"):
     kind, two, w, path = f["kind"], f["two"], f["w"], f["path"]
-    rows = [row_value(kind, two, w, path, g, f.get("keymod"), wprof) for g in gids]
+    rows = [row_value(kind, two, w, f.get("vname") or path, g, f.get("keymod"), wprof) for g in gids]
     ref_terms = []
     for attr, tgt in f["refs"].items():
         if tgt[0] == "field":
@@ -880,6 +948,17 @@ def random_history(ctx, rng, label, max_ops, big=False):
                 cand = nested_first
             h.delete(rng.choice(cand) if cand and rng.random() < 0.9 else "nonexistent")
             ctx.count("op:del")
+        elif r < 0.80 and rng.random() < 0.3:
+            # filter(idx=mask, ...) with an ndarray mask the caller keeps using (a second filter, then subset)
+            keep = np.array([rng.random() < 0.7 for _ in range(n)], dtype=bool)
+            intended = [bool(x) for x in keep]
+            vals = np.asarray(h.real.ds["key"]).tolist()
+            h.filter_idx(keep, [("key", "float", float(rng.choice(vals)) if vals else 0.0)])
+            if rng.random() < 0.5:
+                h.filter_idx(keep, [("rid", "float", float(rng.choice(np.asarray(h.real.ds["rid"]).tolist())) if n else 0.0)])
+            if rng.random() < 0.6 and not h.dead:
+                h.subset_mask_array(keep, intended)
+            ctx.count("op:filter_idx")
         elif r < 0.80:
             flt = [p for p, f in sch.items() if f["kind"] == "float" and not f["two"] and "." not in p]
             if rng.random() < 0.5 and flt:
@@ -968,7 +1047,8 @@ def make_history(spec):
 CORPUS = ["subset_index", "unstable_sort", "nested_pad", "fill_unattached", "empty_self_nested", "empty_other_sharing",
           "text_narrow_then_wide", "text_wide_then_narrow", "text_99_100", "text_100_99", "text_u99_u100", "text_u100_u99",
           "text_merge_widths", "empty_self_toplevel", "first_collection_emptied", "first_collection_never_filled",
-          "nested_first_collection_emptied", "empty_collection_gets_field", "time_only_in_other", "per_column_units"]
+          "nested_first_collection_emptied", "empty_collection_gets_field", "time_only_in_other", "per_column_units",
+          "filter_idx_reused_mask", "time_scales_equal_epochs", "time_scale_merge", "time_not_utc_padded"]
 
 
 def corpus_history(name):
@@ -1016,6 +1096,38 @@ def corpus_history(name):
         h.start(rk + [fd("grp.g1", "float")], 2)
         h.delete("grp.g1")
         h.extend(build_real(rk + [fd("grp.g1", "float")], 3, 100))
+    elif name == "filter_idx_reused_mask":
+        # keep = ds.filter(a=..); ds.filter(idx=keep, b=..); ds.filter(idx=keep, c=..); ds.subset(keep)
+        h.start(rk + [fd("tx", "text"), fd("bo", "bool"), fd("f1", "float")], 6)
+        keep = np.asarray(h.real.ds.filter(key=0.0)).copy()
+        h.filter([("key", "float", 0.0)])
+        intended = [bool(x) for x in keep]
+        h.filter_idx(keep, [("f1", "float", float(np.asarray(h.real.ds.f1)[3]))])
+        h.filter_idx(keep, [("tx", "text", str(np.asarray(h.real.ds.tx)[0])), ("key", "float", 0.0)])
+        h.filter_idx(keep, [])
+        h.subset_mask_array(keep, intended)
+        keep2 = np.array([True, False])
+        h.filter_idx(keep2, [("rid", "float", 12345.0)])
+        h.subset_mask_array(keep2, [True, False])
+    elif name in ("time_scales_equal_epochs", "time_scale_merge"):
+        # self keeps its epochs in gps / tt, other in utc / tai; two DIFFERENT time fields of other hold equal epochs
+        # (sent / received with zero travel time) while the fields of self differ
+        ssch = rk + [fd("sent", "time", unit=("gps",), vname="tsent"), fd("grp.received", "time", unit=("gps",), vname="trecv"),
+                     fd("mid", "time", unit=("tt",), vname="recv")]      # three different value series (salts 3, 2, 0)
+        osch = rk + [fd("sent", "time", unit=("utc",), vname="same"), fd("grp.received", "time", unit=("utc",), vname="same"),
+                     fd("mid", "time", unit=("tai",), vname="same")]
+        h.start(ssch, 3)
+        if name == "time_scales_equal_epochs":
+            h.extend(build_real(osch, 2, 100))
+            h.extend(build_real(ssch, 2, 200))
+            h.subset_idx([6, 0, 3, 4])
+        else:
+            h.merge([build_real(osch, 2, 100), build_real(osch, 1, 200)], "sent")
+            h.subset_mask([True, False, True, True, False, True])
+    elif name == "time_not_utc_padded":
+        # a time field in another scale than utc is missing on the other side: padded with empty values
+        h.start(rk + [fd("tg", "time", unit=("gps",))], 2)
+        h.extend(build_real(rk, 2, 100))
     elif name == "time_only_in_other":
         # time / time_delta fields (and a position's time) that only the other dataset has: prepend_empty inserts at
         # row 0; value, jd1 and jd2 of every row must stay together
